@@ -21,10 +21,15 @@ namespace rkcommon {
           "rkcommon::tasking::parallel_foreach() requires random-"
           "access iterators!");
 
-      const size_t count = std::distance(begin, end);
-      auto *v            = &(*begin);
+      using DIFF_T =
+          typename std::iterator_traits<ITERATOR_T>::difference_type;
 
-      parallel_for(count, [&](size_t i) { f(v[i]); });
+      const size_t count = std::distance(begin, end);
+
+      // NOTE: elements are addressed through the iterator: random-access
+      //       iterators need not refer to contiguous memory (std::deque,
+      //       reverse iterators), and an empty range has no first element
+      parallel_for(count, [&](size_t i) { f(begin[DIFF_T(i)]); });
     }
 
     template <typename CONTAINER_T, typename TASK_T>
